@@ -4,6 +4,11 @@ import json, os
 V = os.path.dirname(os.path.dirname(os.path.abspath(__file__)))
 
 CLAIMED = {
+ "C18": dict(
+   category="proof", design_ref="DESIGN.md §5 C18",
+   text="25 Lean theorems about the executable model of template.parse/execute, Meta.Bind/IsBound and Unstructured.Build (text/template itself is a parameter constrained only by hypotheses): C18.substitutes / substitutes_build / bind_then_build (every string leaf and key is replaced by its rendering and nothing else changes, for every nesting and every Go map iteration order), C18.plain_identity (action-free documents come back equal up to nil-vs-empty Fields), C18.bind_selects_* (exactly the value named by id / name / anonymous), C18.missing_rejected, C18.no_panic; the pinned-tree defects are refuted by decide witnesses. Tied to the code by differential execution (10k cases quick, 200k thorough, exhaustive selection sweep, corpus) with real text/template output supplied as a table.",
+   note="text/template, reflect and map iteration order are modelled (parameter T with hypotheses Renders/PlainId checked per case by the harness; ord parameter quantified over all permutations). Only JSON-like documents are covered. Trusted: Lean kernel, correspondence harness.",
+   technique="Lean 4 proof (structural induction over documents, parameterised by text/template) + model/implementation differential correspondence"),
  "C13": dict(
    category="proof", design_ref="DESIGN.md §5 C13",
    text="Lean theorems C13.events_exact (for every history of watch / per-document mutation / read / close / pump-exit steps and every watcher: delivered events are a prefix of, and delivered ++ queued equals, the accepted matching mutations between its Watch and Close, in order — exactly once, nothing lost before close), C13.writer_never_blocks / C13.pump_receptive_after_park / C13.pump_fifo (the pump goroutine's program-counter machine), C13.close_isolated. The model is tied to pkg/store/stream.go and store.go's Watch/emit by differential execution of a real store with up to 4 watchers against the model, plus a stalled-consumer run.",
